@@ -76,9 +76,21 @@ impl Check for CanonCheck {
     }
 
     fn exec(&self, run: &Run) -> Outcome {
+        // a third of the runs carry the simulator's analysis (min size / depth / height): worklist
+        // entries then come in two kinds (analysis-only and full) and data changes re-queue parents
+        if run.get("analysis") != 0 {
+            self.exec_with(run, EGraph::new(crate::analysis::SimAn { p: 3, modify: false }))
+        } else {
+            self.exec_with(run, EGraph::new(()))
+        }
+    }
+}
+
+impl CanonCheck {
+    fn exec_with<N: Analysis<LS>>(&self, run: &Run, eg: EGraph<LS, N>) -> Outcome {
         let mut out = Outcome::default();
         seam::apply(&run.knobs());
-        let mut s: Sess<LS, ()> = Sess::new(EGraph::new(()), run.get("naming") as u32);
+        let mut s: Sess<LS, N> = Sess::new(eg, run.get("naming") as u32);
         let n = pool_size(&run.ops);
         let mut ctx = CcCtx::new(n);
         let mut any_change = false;
@@ -296,5 +308,5 @@ impl Check for CanonCheck {
         let ac = out.counters.get("absent_candidates").copied().unwrap_or(0);
         out.nontrivial = any_change && pc > 0 && ac > 0;
         out
-    }
+        }
 }
